@@ -24,8 +24,8 @@ claimed = {
          'Structural necessary conditions only: wire-reachable code writes no package-level state, shared server objects are never written through their receivers, the sqlite store signs with the secret it read back, and the service-info pipes access their buffer/error/channels only under their mutexes (one reviewed exception). Race freedom in general, deadlock freedom, lost wake-ups and isolation inside other backends are properties of schedules and are not decided.',
          'Trusts go/types+go/ssa; lock identity is by canonical receiver address within one function; the guarded-field table and its single exception are in /verif/checker/c19.go.', 'DESIGN.md §2 C19'),
 
- 'C10': ('peer-taint analysis over the class-hierarchy call graph + guard obligations (explicit panics, partial lookups, allocations, compiler-unproven bounds, stdlib preconditions, type assertions) + must-pass dataflow',
-         'Structural necessary conditions over all code reachable from the wire entry points: no explicit panic, unbounded allocation, unguarded index/slice (among those the Go compiler could not prove), unguarded stdlib precondition or unchecked type assertion is reachable with a peer-controlled operand without a dominating guard; responders convert failures to error messages; content-length guards dominate body processing. Nil dereferences, hangs, CPU and memory below the bounds are not decided.',
+ 'C10': ('peer-taint analysis over the class-hierarchy call graph + guard obligations (explicit panics, partial lookups, allocations, compiler-unproven bounds, stdlib preconditions, type assertions, decoded-pointer nil checks) + must-pass dataflow',
+         'Structural necessary conditions over all code reachable from the wire entry points: no explicit panic, unbounded allocation, unguarded index/slice (among those the Go compiler could not prove), unguarded stdlib precondition or unchecked type assertion is reachable with a peer-controlled operand without a dominating guard; pointers the decoder can leave nil (CBOR null) are compared with nil before they are dereferenced; responders convert failures to error messages; content-length guards dominate body processing. Nil dereferences of pointers that do not come from decoding, hangs, CPU and memory below the bounds are not decided.',
          'Trusts go/types+go/ssa, the Go compiler\'s prove pass (bounds-check elimination) as discharge oracle, the taint source/sink tables and three reviewed tables (panics, bounds, preconditions: one reason per entry) in /verif/checker/e3.go; values from the state store, callbacks and registries are assumed not attacker-controlled.', 'DESIGN.md §2 C10'),
  'C12': ('peer-taint guard obligations restricted to package cbor + must-pass (trailing data) + byte-string bounding table',
          'Structural necessary conditions for the decoder with every input byte attacker-controlled: allocations sized from a wire head are dominated by an upper bound (and are non-negative), Unmarshal succeeds only without trailing bytes, byte-string wrappers decode from a reader limited to the announced length, explicit panics and compiler-unproven bounds are discharged; allocations proportional to claimed (not received) length are enumerated and carried as known findings. Termination, exact consumption and reflect-internal panics are not decided.',
